@@ -14,7 +14,7 @@ import (
 
 // TS-AGE-CUTOFF: ‘an entry used within the configured age is never expired’. The age pruner removes what was last used
 // before now − F, F a field of the cache; the rule finds F (the field whose negation is added to the current time in a
-// function of the cache package that deletes from a map) and requires every value the package stores into F to be the
+// function of the cache package) and requires every value the package stores into F to be the
 // configured age itself or the configured age plus something non-negative: a field of a parameter struct, sums of it
 // with quotients / products of it by positive constants, non-negative constants, φs of such values, and results of
 // module helpers that return such values of their parameters. A difference, a quotient or a product at the top (0.9 ×
@@ -59,15 +59,6 @@ func init() {
 			// the cutoff fields
 			cutoff := map[string]token.Pos{}
 			for _, fn := range fns {
-				deletes := false
-				an.Calls(fn, func(call ssa.CallInstruction) {
-					if bi, ok := call.Common().Value.(*ssa.Builtin); ok && bi.Name() == "delete" {
-						deletes = true
-					}
-				})
-				if !deletes {
-					continue
-				}
 				an.Calls(fn, func(call ssa.CallInstruction) {
 					if !an.IsMethod(call, "time", "Time", "Add") || len(call.Common().Args) < 2 {
 						return
@@ -101,7 +92,7 @@ func init() {
 				})
 			}
 			if len(cutoff) == 0 {
-				c.Unresolved("cutoff-field", "no ‘now.Add(-field)’ in a deleting function of the cache package: the age pruner's cutoff not found")
+				c.Unresolved("cutoff-field", "no ‘now.Add(-field)’ in the cache package: the age pruner's cutoff not found")
 				return
 			}
 			// value judgement
